@@ -22,7 +22,8 @@ RULE = ("Generated all-active bounded systems (star+planets >= 8 Hill radii apar
         "masses must be sums over a partition of the initial masses at every change of N, momentum and centre-of-mass "
         "line at the end.  Diagnostics: energy/angular_momentum/com of random particle sets (zero masses included) "
         "against the longdouble formulas.  Non-trivial = >= 3 bodies, >= 100 steps, >= 3 checkpoints and deferred "
-        "synchronisation with an intermediate synchronize (conserve); a merger happened in a run of >= 100 steps with "
+        "synchronisation with an intermediate synchronize (conserve); >= 4 bodies of 1e-5..1e-3 stellar masses, >= 2 "
+        "steps and >= 2 checkpoints (conserve_short: many short histories for coverage of the option lattice); a merger happened in a run of >= 100 steps with "
         ">= 3 bodies (merge); N >= 2 with total mass > 0 (diagnostics); distinct by case hash.")
 ASSUMPTIONS = [
     "numpy longdouble is the x87 80-bit format (eps 2^-63, checked in prepare): the oracle's own rounding is negligible against double rounding",
@@ -175,6 +176,10 @@ class Tracker:
         # step and square-root growth beyond (EOS with n=8 and 17x17 stages has 2312 kicks per step: a linear allowance
         # would hide a real momentum leak of 1e-12 per step)
         n_ops = n * (stages if stages <= 48 else 48.0 * math.sqrt(stages / 48.0))
+        if fam == "eos":
+            # EOS: up to 2312 kicks per step; their rounding adds like a random walk (measured: with 2*sqrt(kicks) the
+            # largest ratio over 8 seeds stays below 0.2), and a linear allowance would hide a leak of 1e-12 per step
+            n_ops = n * 2.0 * math.sqrt(stages)
         msum = float(abs(a[:, inv.M]).sum())
         # --- linear momentum
         Psc = max(float(i0["Psc"]), float(i1["Psc"]), getattr(self, "Psc_path", 0.0))
@@ -356,7 +361,7 @@ conserve_case = st.one_of(
 
 # "conserve_short": the same check on many short histories of heavy multi-planet systems.  Pair terms that fail to
 # cancel scale with m^2 dt^k and show within a step or two, but only for particular option values (one EOS kernel,
-# one coordinate system with one gravity routine, ...): this sub buys lattice coverage (3000 configurations, planets
+# one coordinate system with one gravity routine, ...): this sub buys lattice coverage (1600 configurations, planets
 # of 1e-5..1e-3 stellar masses, 4-5 bodies, steps of 0.01-0.05 periods) for little time.
 short_op = st.one_of(st.tuples(st.just("steps"), st.integers(1, 6)),
                      st.tuples(st.just("integrate"), S.floats(0.5, 6.0), st.sampled_from([0, 1])),
@@ -452,6 +457,8 @@ def run_conserve(case, ctx):
         ctx.cls("deferred_sync")
     n = sim.steps_done
     if sim.N >= 3 and n >= 100 and ncheck >= 3 and synced_mid:
+        ctx.nontrivial()
+    if ctx.sub == "conserve_short" and sim.N >= 4 and ncheck >= 2 and n >= 2:
         ctx.nontrivial()
 
 
@@ -829,7 +836,7 @@ def run_mirror(case, ctx):
 def subs(tier):
     out = [
         Sub("conserve", run_conserve, strategy=conserve_case, quick=2000, thorough=40000, shards_quick=8, shards_thorough=16),
-        Sub("conserve_short", run_conserve, strategy=short_case, quick=3000, thorough=100000, shards_quick=4, shards_thorough=16),
+        Sub("conserve_short", run_conserve, strategy=short_case, quick=1600, thorough=100000, shards_quick=8, shards_thorough=16),
         Sub("merge", run_merge, strategy=merge_case, quick=600, thorough=40000, shards_quick=4, shards_thorough=16),
         Sub("mirror", run_mirror, strategy=mirror_case, quick=320, thorough=12000, shards_quick=4, shards_thorough=16),
         Sub("diagnostics", run_diag, strategy=diag_case, quick=3000, thorough=200000, shards_quick=2, shards_thorough=8),
